@@ -803,7 +803,12 @@ func abciSockRun(tr *abciTrace, dir string, idx int, run abciRun) {
 	tr.ev("Reset", abciM{"run": run.ID, "family": "sock", "qcap": qcap})
 	cli := NewSocketClient("unix://"+path, true).(*socketClient)
 	cli.reqQueue = make(chan *ReqRes, qcap)
-	cli.flushTimer = timer.NewThrottleTimer("socketClient", time.Hour) // fired by TimerFire steps only
+	// The client's own timer (flushThrottleMS = 20 is passed as a time.Duration: 20ns) is replaced by one
+	// that only the schedule fires (TimerFire steps).  The old one must be stopped: if its AfterFunc
+	// fired before NewThrottleTimer could stop it, it re-arms itself every 20ns until somebody
+	// receives from its channel.
+	cli.flushTimer.Stop()
+	cli.flushTimer = timer.NewThrottleTimer("socketClient", time.Hour)
 	s := &abciSock{tr: tr, cli: cli, ln: ln, gates: map[string]chan struct{}{}, calls: map[int]*abciCall{},
 		inSetCb: map[int64]bool{}, selfGid: abciGid()}
 	cli.SetResponseCallback(s.globalCb)
